@@ -890,7 +890,40 @@ func (c *Ctx) Select(a, i *Term) *Term {
 		}
 		break
 	}
+	if !i.IsConst() {
+		if t := c.tableSelect(cur, i); t != nil {
+			return t
+		}
+	}
 	return c.mk(&Term{Op: OpSelect, Sort: BV(8), Args: []*Term{cur, i}})
+}
+
+// tableSelect: a read at a symbolic index from a small constant lookup table (a chain
+// of stores at distinct constant indices over a constant array) becomes an ite chain,
+// which bit-blasts far better than array reasoning over the store chain.
+func (c *Ctx) tableSelect(a, i *Term) *Term {
+	type kv struct{ k, v *Term }
+	var ents []kv
+	seen := map[uint64]bool{}
+	cur := a
+	for cur.Op == OpStore {
+		if !cur.Args[1].IsConst() || len(ents) > 256 {
+			return nil
+		}
+		if !seen[cur.Args[1].Val] {
+			seen[cur.Args[1].Val] = true
+			ents = append(ents, kv{cur.Args[1], cur.Args[2]})
+		}
+		cur = cur.Args[0]
+	}
+	if cur.Op != OpConstArr || len(ents) == 0 {
+		return nil
+	}
+	res := c.Const(8, cur.Val)
+	for j := len(ents) - 1; j >= 0; j-- {
+		res = c.Ite(c.Eq(i, ents[j].k), ents[j].v, res)
+	}
+	return res
 }
 
 // provablyDistinct: x+k1 vs x+k2 with k1!=k2, or x vs x+k (k!=0).
